@@ -335,7 +335,7 @@ def check_images(exp: Expect, images: list[dict], units: list[dict] | None = Non
     elif nums != list(range(1, len(nums) + 1)):
         out.append(("image-number-sequence", f"image numbers are not the running sequence 1..n in document order: {nums}"))
     for want, got in zip(exp.images, images):
-        if got.get("ctype") != want["ctype"]:
+        if want["ctype"] is not None and got.get("ctype") != want["ctype"]:      # (None: the part name says nothing about the type - unclaimed)
             out.append(("image-content-type", f"content type {got.get('ctype')!r} for a {want['ctype']} file"))
             break
         if want.get("w") is not None and (got.get("w"), got.get("h")) != (want["w"], want["h"]):
